@@ -29,7 +29,7 @@ func progClass(name string) string {
 	}
 	// hand-written shapes are named in full (each is its own situation: a known finding in one of them must not
 	// mask a new defect in another); the systematic families P2/P3/P4 are named by family
-	if strings.HasPrefix(name, "P1/") || strings.HasPrefix(name, "L/") || strings.HasPrefix(name, "M/") || strings.HasPrefix(name, "K/") || strings.HasPrefix(name, "P5/") || strings.HasPrefix(name, "P6/") {
+	if strings.HasPrefix(name, "P1/") || strings.HasPrefix(name, "L/") || strings.HasPrefix(name, "M/") || strings.HasPrefix(name, "K/") || strings.HasPrefix(name, "F/") || strings.HasPrefix(name, "P5/") || strings.HasPrefix(name, "P6/") {
 		return name
 	}
 	return familyOf(name)
